@@ -506,6 +506,8 @@ class Engine(StmtMixin):
         whole: set[int] = set()
         octx = ctx.sub(spec=True, old=None)
         for p in c.modifies:
+            if p.strip().startswith("var:"):
+                continue
             node = ast.parse(p.strip(), mode="eval").body
             if isinstance(node, ast.Name):
                 v = self.lookup_name(node.id, old, octx)
